@@ -453,6 +453,13 @@ def r5_groups_obey(ctx):
         return
     R, M, CNT, E, I = m.R, m.M, m.CNT, m.E, m.I
     N = m.N()
+    # the loop starts from nothing: no seat counted, nobody elected, the first group next
+    def _outer(name):
+        return [dv for st_, dv in astx.defs_of(f.node, name) if dv is not None and astx.enclosing(st_, pm, ast.While) is not m.loop]
+    zero = all(len(_outer(x)) == 1 and astx.is_const(_outer(x)[0], 0) for x in (CNT, I) if x)
+    empty = len(_outer(E)) == 1 and isinstance(_outer(E)[0], (ast.List, ast.Tuple)) and not _outer(E)[0].elts
+    ctx.check(zero and empty, f, m.loop, "the selector starts with no seat filled, nobody elected and the first group", "",
+              f"initial values: {CNT} = {[astx.u(x) for x in _outer(CNT)]}, {I} = {[astx.u(x) for x in _outer(I)] if I else '-'}, {E} = {[astx.u(x) for x in _outer(E)]}")
     rets = m.kinds("return")
     open_seats = f"{M} - {CNT}"
     split_ok = bool(rets)
@@ -608,7 +615,7 @@ RULES = [
     ("C10.R6", r6_genuine_ties, 2, "recorded ties are genuine: candidates are grouped by exact equal score"),
     ("C10.R8", r8_no_replay_in_step, 2, "steps never re-derive their input by replaying earlier (possibly tie-broken) rounds"),
     ("C10.R9", r9_resolution_assembly, 1, "prerequisite: tiebroken_ranking assembles the resolutions with a correctly advanced cursor"),
-    ("C10.R5", r5_groups_obey, 4, "selector splits the resolution prefix/suffix at one point; untied exit shape"),
+    ("C10.R5", r5_groups_obey, 5, "selector splits the resolution prefix/suffix at one point; untied exit shape"),
 ]
 
 
@@ -619,6 +626,7 @@ BO = "src/votekit/elections/election_types/ranking/borda.py"
 RD = "src/votekit/elections/election_types/ranking/random_dictator.py"
 TT = "src/votekit/elections/election_types/ranking/top_two.py"
 FAULTS = [
+    ("selector starts with one seat counted", [(UT, "    num_elected = 0\n    elected = []", "    num_elected = 1\n    elected = []")], "C10.R5"),
     ("random draw in plurality", [(PL, "        new_profile = remove_cand([c for s in elected for c in s], profile)", "        import random\n        random.shuffle(list(elected))\n        new_profile = remove_cand([c for s in elected for c in s], profile)")], "C10.R1"),
     ("score function jitters", [(UT, "    if to_float:\n        return {c: float(v) for c, v in mentions.items()}", "    if to_float:\n        return {c: float(v) + random.random() * 0 for c, v in mentions.items()}")], "C10.R1"),
     ("stv tiebreak without tie test", [(STV, "            if len(lowest_fpv_cands) > 1:\n                tiebroken_ranking = tiebreak_set(", "            if len(lowest_fpv_cands) > 0:\n                tiebroken_ranking = tiebreak_set(")], "C10.R2"),
